@@ -134,6 +134,9 @@ package types
 //@ callsite VerifyCascadingFields [this-header] dollar_header == header
 // the revision number is relayer-supplied and not part of the block hash: it must be the client's own
 //@ ensures [same-revision] result == nil ==> header.Height.RevisionNumber == clientState.Header.Height.RevisionNumber
+// an accepted header becomes the head, so it must not itself be older than the trusting period (the client would
+// turn Expired and refuse every valid child of every stored header: "forks never wedge it")
+//@ ensures [not-expired-on-arrival] result == nil ==> header.Time + clientState.TrustingPeriod >= uint64(blocktime(ctx).Unix())
 //@ ensures [rules] result == nil ==> ncalls("ValidateBasic") == 1 && callsok("ValidateBasic") && ncalls("verifyHeader") == 1 && callsok("verifyHeader")
 //@ ensures [seal-unless-rinkeby] result == nil && clientState.ChainId != 4 ==> len(header.Extra) <= 32 && ncalls("VerifyCascadingFields") == 1 && callsok("VerifyCascadingFields")
 
